@@ -4,4 +4,4 @@ ID=$1; D=/verif/seeded/$ID
 PROP=${2:-$(python3 -c "import json;print(json.load(open('$D/meta.json'))['property'])")}
 cd /repo && git apply $D/patch.diff || { echo "apply failed"; exit 2; }
 cd /verif && ./bin/lhv check --property $PROP 2>&1 | grep -E "VIOLATION|KNOWN|SUMMARY|ENGINE" | cut -c1-260
-cd /repo && git checkout -q -- . 
+cd /repo && git apply -R $D/patch.diff
